@@ -15,7 +15,8 @@ class Undecided(Exception):
 
 class Part:
     """one function body to extract"""
-    def __init__(self, header, scopes, anchor, nth=0, expect_anchors=None, xform=None, tag=None, init_list=False, member_init=None, optional=False):
+    def __init__(self, header, scopes, anchor, nth=0, expect_anchors=None, xform=None, tag=None, init_list=False, member_init=None, optional=False, default_body=None):
+        self.default_body = default_body   # with optional: the C text standing for the compiler-generated function when the class declares none (e.g. member-wise copy `*self = *other;`)
         self.optional = optional      # the function may be absent from the tree (e.g. a destructor of a scope guard a change removed): its body is then empty
         self.member_init = member_init   # not a function: the default member initialiser `T name{...};` of the class in `scopes` (MEMBERINIT rule)
         self.init_list = init_list    # constructor: the member initialiser list `: m(e), n(f)` becomes `m = e; n = f;` in front of the body (INITLIST rule)
@@ -147,6 +148,8 @@ def extract_part(part, F, default_xform):
     except Drift:
         if not getattr(part, 'optional', False): raise
         F.hit('OPTIONAL-ABSENT')
+        if getattr(part, 'default_body', None):
+            return toks(part.default_body), dict(header='include/boost/msm/' + part.header, first_line=0, last_line=0, body_tokens=0, body_sha256=cxx2c.sha([]), verbatim_ratio=1.0, absent=True, compiler_generated=part.default_body)
         return [], dict(header='include/boost/msm/' + part.header, first_line=0, last_line=0, body_tokens=0, body_sha256=cxx2c.sha([]), verbatim_ratio=1.0, absent=True)
     if part.expect_anchors is not None and n_anchor != part.expect_anchors:
         raise Drift("anchor '%s' occurs %d times in scope, expected %d" % (part.anchor, n_anchor, part.expect_anchors))
